@@ -46,6 +46,18 @@ func (x *Exec) ConcRun(goroutines, rounds int) []GenOp {
 			continue
 		}
 		s := shared{rf: rf, flt: flt}
+		if k >= 2 {
+			// the filter object was used for a batch with a relation target before (its relation slice has been extended)
+			bq := map[string]ecs.Entity{}
+			for _, c := range flt.With {
+				if _, fixed := flt.Ft[c]; isRelName(c) && !fixed {
+					bq[c] = x.ent(x.pickTarget(vs))
+				}
+			}
+			if len(bq) > 0 {
+				_ = x.batchOf(rf, bq)
+			}
+		}
 		if k%2 == 1 {
 			rf.flt = flt
 			rf.register()
@@ -103,6 +115,33 @@ func (x *Exec) ConcRun(goroutines, rounds int) []GenOp {
 						}
 					}()
 					var relsArg []ecs.Relation
+					if x.Cfg.Path == "unsafe" && s.f == 0 {
+						// the ID-based query
+						uf := ecs.NewUnsafeFilter(x.w, x.idsOf(flt.With)...)
+						if flt.Excl {
+							uf = uf.Exclusive()
+						} else if len(flt.Without) > 0 {
+							uf = uf.Without(x.idsOf(flt.Without)...)
+						}
+						all := map[string]ecs.Entity{}
+						for k, v := range x.tgMap(flt.Ft) {
+							all[k] = v
+						}
+						for k, v := range qt {
+							all[k] = v
+						}
+						q := uf.Query(x.unsafeRels(all)...)
+						lp.Count = q.Count()
+						if p[1] == 1 {
+							q.Close()
+							lp.Count = -1
+							return
+						}
+						for q.Next() {
+							lp.Visited = append(lp.Visited, Visit{E: q.Entity(), V: map[string]int64{}, T: map[string]ecs.Entity{}, PtrEq: true})
+						}
+						return
+					}
 					if s.rf.f0 != nil {
 						relsArg = x.unsafeRels(qt)
 						q := s.rf.f0.Query(relsArg...)
